@@ -206,6 +206,32 @@ def recovery(ctx, rng, version, faults):
     ctx.case("recovery", key=(version, tuple(faults)), sample={**inp, "outcomes": res["outcomes"], "final": res.get("final")})
 
 
+def stack_histories(ctx, rng):
+    """the whole client stack (AirConditioner over LAN over the V3 protocol) against the Stack model: device-level
+    histories of authenticate / refresh under peer faults / clock jumps; outcomes, the full device record (online,
+    supported, every attribute) and the structural write log (frames incl. message ids) must agree"""
+    modes = [("ok", "ok"), ("ok", "silent"), ("ok", "error"), ("ok", "garbage"), ("ok", "close"), ("ok", "reset"),
+             ("silent", "ok"), ("error", "ok"), ("bad", "ok"), ("ok", "okpush")]
+    n = 40 if ctx.tier == "quick" else 1200
+    for k in range(n):
+        token, key = rb(rng, 64), rb(rng, 32)
+        ops = [("auth", token, key, "ok", "ok")]
+        for _ in range(rng.randrange(1, 7)):
+            r = rng.random()
+            if r < 0.75:
+                ops.append(("refresh",) + rng.choice(modes))
+            elif r < 0.9:
+                ops.append(("adv", rng.choice([61000, 13 * 3600 * 1000, 500, 2500])))
+            else:
+                ops.append(("auth", token, key) + rng.choice([("ok", "ok"), ("bad", "ok"), ("silent", "ok")]))
+        connects = ["o"] * 3 + [rng.choice("oooor") for _ in range(20)]
+        res, inp = sessim.compare_stack(ctx, "stack", ops, connects, token, key)
+        for o in res["outcomes"]:
+            if o.startswith("fail:py") :
+                ctx.violate("stack", inp, o, "ok / done / AuthenticationError", "a device-level operation raised something else")
+        ctx.case("stack", key=(k, hx(token[:4])), sample={"ops": inp["ops"], "outcomes": res["outcomes"]})
+
+
 def offline_flag(ctx, rng):
     """exhausting the retries is turned into 'no response / offline' by device-level calls"""
     for version in (2, 3):
@@ -232,6 +258,7 @@ def run(ctx):
         for version in (2, 3):
             for fs in itertools.product(FAULTS, repeat=3):
                 recovery(ctx, rng, version, list(fs))
+    stack_histories(ctx, rng)
 
 
 def patch_sendn():
